@@ -116,6 +116,16 @@ def surplus():
 
 EPS, NONE, MARK, ALLM = ('eps',), ('none',), ('mark',), ('allm',)
 
+_keys = {}
+
+
+def _key(r):
+    k = _keys.get(r)
+    if k is None:
+        k = _keys[r] = repr(r)
+    return k
+
+
 
 def cat(*rs):
     out = []
@@ -130,7 +140,7 @@ def cat(*rs):
             out.append(r)
     if not out:
         return EPS
-    return out[0] if len(out) == 1 else ('cat', out)
+    return out[0] if len(out) == 1 else ('cat', tuple(out))
 
 
 def alt(*rs):
@@ -146,7 +156,7 @@ def alt(*rs):
             out.append(r)
     if not out:
         return NONE
-    return out[0] if len(out) == 1 else ('alt', out)
+    return out[0] if len(out) == 1 else ('alt', tuple(sorted(out, key=_key)))
 
 
 def conj(*rs):
@@ -160,12 +170,16 @@ def conj(*rs):
             out.append(r)
     if not out:
         return ALLM
-    return out[0] if len(out) == 1 else ('and', out)
+    return out[0] if len(out) == 1 else ('and', tuple(sorted(out, key=_key)))
 
 
 def neg(r):
     if r[0] == 'not':
         return r[1]
+    if r == NONE:
+        return ALLM
+    if r == ALLM:
+        return NONE
     return ('not', r)
 
 
@@ -673,7 +687,18 @@ def nullable(r):
     raise CheckerError(t)
 
 
+_dmemo = {}
+
+
 def deriv(r, c):
+    k = (r, c)
+    v = _dmemo.get(k)
+    if v is None:
+        v = _dmemo[k] = _deriv(r, c)
+    return v
+
+
+def _deriv(r, c):
     t = r[0]
     if t in ('eps', 'none'):
         return NONE
@@ -721,3 +746,42 @@ def member(r, cps):
 def T_member(T, u, v, w):
     cps = [ord(ch) for ch in u] + [MARKCP] + [ord(ch) for ch in v] + [MARKCP] + [ord(ch) for ch in w]
     return member(T, cps)
+
+
+def included(A, B, universe, limit=400000):
+    """Decide L(A) <= L(B) over (universe + marker)* by exploring pairs of Brzozowski derivatives over the minterm
+    alphabet.  Returns (True, None, states) or (False, counterexample_code_points, states); raises CheckerError when
+    the state limit is exceeded (undecided)."""
+    sets = set()
+    collect_sets(A, sets)
+    collect_sets(B, sets)
+    blocks, _ = minterms(sorted(sets), universe)
+    syms = [representative(b) for b in blocks] + [MARKCP]
+    start = (A, B)
+    seen = {start: None}
+    queue = [start]
+    qi = 0
+    while qi < len(queue):
+        st = queue[qi]
+        qi += 1
+        a, b = st
+        if nullable(a) and not nullable(b):
+            path = []
+            cur = st
+            while seen[cur] is not None:
+                prev, c = seen[cur]
+                path.append(c)
+                cur = prev
+            return False, path[::-1], len(seen)
+        for c in syms:
+            a2 = deriv(a, c)
+            if a2 == NONE:
+                continue
+            b2 = deriv(b, c)
+            nx = (a2, b2)
+            if nx not in seen:
+                seen[nx] = (st, c)
+                queue.append(nx)
+                if len(seen) > limit:
+                    raise CheckerError("derivative exploration exceeded the state limit")
+    return True, None, len(seen)
